@@ -263,6 +263,11 @@ def cases():
             "class PB { public constructor() -> PB { return this; } private constructor(int a) -> PB { return this; } }\nclass PD extends PB { public int w; public constructor(int w) -> PD = default; }"),
            ("no-parameterless-base-constructor-implicit-super-defaulted", "class PB { public constructor(int a) -> PB { return this; } }\nclass PD extends PB { public constructor() -> PD = default; }",
             "class PB { public constructor(int a) -> PB { return this; } public constructor() -> PB { return this; } }\nclass PD extends PB { public constructor() -> PD = default; }"),
+           ("null-returned-for-array", "function ra() -> int[] { return null; }\nfunction ura() -> void { int[] z = ra(); }",
+            "function ra() -> int[] { int[] z = {1}; return z; }\nfunction ura() -> void { int[] z = ra(); }"),
+           ("null-returned-for-array-from-method", "class RN { public constructor() -> RN = default; public function ra() -> float[] { return null; } }",
+            "class RN { public constructor() -> RN = default; public function ra() -> float[] { float[] z = {1.5f}; return z; } }"),
+           ("null-returned-for-primitive", "function rp() -> int { return null; }", "function rp() -> int { return 1; }"),
            ("protected-constructor-from-outside", "class PP { protected constructor() -> PP = default; }\nfunction mk() -> void { PP p = new PP(); }",
             "class PP { protected constructor() -> PP = default; }\nclass PQ extends PP { public constructor() -> PQ { super(); return this; } }\nfunction mk() -> void { PQ p = new PQ(); }"),
            ("unrelated-class-with-colliding-name-concatenation",
